@@ -547,12 +547,12 @@ func TestC16(t *testing.T) {
 		}
 	}
 
-	sp := c16Split.On(col, "rapid: 0..6 non-empty pieces free of the separator, joined by a non-space separator of 1..2 characters; oracle: split gives back exactly the pieces (count and content) and join of the split gives back the string. Non-trivial: >= 2 pieces; distinct by string+separator", false)
+	sp := c16Split.On(col, "rapid: 0..6 non-empty pieces free of the separator, joined by a separator of 1..3 characters (punctuation, letters, and white space other than the single space: newline, tab, two spaces, NBSP); oracle: split gives back exactly the pieces (count and content) and join of the split gives back the string. Non-trivial: >= 2 pieces; distinct by string+separator", false)
 	col.Rapid(sp.Sub, env.PerShard(env.Pick(60000, 600000)), func(t *rapid.T) {
-		sep := rapid.SampledFrom([]string{",", ";", "--", "é", "😀", "&", "<>", "|", "ab"}).Draw(t, "sep")
+		sep := rapid.SampledFrom([]string{",", ";", "--", "é", "😀", "&", "<>", "|", "ab", "\n", "  ", "\t", " \n", ", ", "\u00a0", " - "}).Draw(t, "sep")
 		piece := rapid.Custom(func(t *rapid.T) string {
 			var al []string
-			for _, ch := range []string{"x", "Y", " ", "é", "😀", "1", "\n", "%"} {
+			for _, ch := range []string{"x", "Y", " ", "é", "😀", "1", "\n", "%", "\t"} {
 				if !strings.Contains(sep, ch) {
 					al = append(al, ch) // pieces are free of the separator by construction
 				}
